@@ -295,7 +295,14 @@ def judgeE2E (id : String) (ins outs0 : List String) : String :=
             | .reject _ => if implAccept then some "accepted" else none
             | .anonymous => if implAccept then some "accepted" else none
           match complaint with
-          | some what => specfail id (e2eClass sw) s!"{what}: spec={specStr s1} impl={impl}"
+          | some what =>
+            -- a wrong window is a class of its own, whatever else the request looks like
+            let cls :=
+              if s1 = .reject "outside the validity window" then "presigned-window-not-enforced"
+              else if kind.startsWith "pre" && (impl = "ERR:RequestTimeTooSkewed" || impl = "ERR:AccessDenied") then
+                "presigned-refused-inside-window"
+              else e2eClass sw
+            specfail id cls s!"{what}: spec={specStr s1} impl={impl}"
           | none =>
             if model ≠ impl then disagree id model impl
             else
